@@ -14,7 +14,7 @@ P = {
     "theorems": ["C06_history_equals_fresh", "C06_lookups_equal_fresh", "C06_rejected_is_noop",
                  "C06_rejected_iff_cannot_apply", "C06_deleted_never_match", "C06_same_source_constraint",
                  "C06_F1_refuted", "C06_F2_refuted", "C06_F3_refuted", "C06_F4_refuted", "C06_F4_panic",
-                 "C06_F5_refuted", "C06_F6_refuted", "C06_nonvacuous"],
+                 "C06_F5_refuted", "C06_F6_refuted", "C06_repaired_examples", "C06_nonvacuous"],
     "streams": [{
         "name": "history", "pkg": "./internal/rules", "test": "TestVerifC06",
         "overlay": {"internal/rules/zz_verif_c06_test.go": "c06/c06_test.go"},
